@@ -51,41 +51,60 @@ theorem C01_closures :
       (closureOf "STRICT_NOT_EQUAL").map (·.eval l e ls es) = some (!e) := by
   decide
 
+/-- **C01 (the kind matrix of the arithmetic helpers, read from runtime.go).** Every one of `runtimeSub`, `runtimeMul`,
+`runtimeQuo`, `runtimeRem` has a case for each of the four pairs (int | float) x (int | float) - integer literals are `int`,
+every number from the data is `float64` - and that case returns `X op Y` with the helper's own operator. A missing pair
+(it would fall through to the string "<nil>") or a wrong operator fails this theorem on the next run. -/
+theorem C01_arith_matrix :
+    Gen.arithMatrix_ok = true ∧ Gen.arithKindsCoverLiteralAndData = true ∧
+    ([("runtimeSub", "-"), ("runtimeMul", "*"), ("runtimeQuo", "/"), ("runtimeRem", "%")].all fun p =>
+      ["int", "float"].all fun kx => ["int", "float"].all fun ky =>
+        Gen.arithMatrix.contains (p.1, kx, ky, "X " ++ p.2 ++ " Y")) = true ∧
+    -- and nothing else: no pair is handled twice or with a second expression
+    Gen.arithMatrix.length = 16 := by decide
+
+open Pug.Props.C01S in
 /-- **C01 (arithmetic on numbers)**: `+ - *` are exact, `/` divides (non-zero divisor), on `Number` operands. -/
 theorem C01_arith (h : Heap) (a b : Rat) :
     runtimeAdd h (.N a) (.N b) = some (.N (a + b)) ∧
     runtimeSub (.N a) (.N b) = some (.N (a - b)) ∧
     runtimeMul (.N a) (.N b) = some (.N (a * b)) ∧
     (b ≠ 0 → runtimeQuo (.N a) (.N b) = some (.N (a / b))) := by
-  refine ⟨by simp [runtimeAdd, convertRaw], by simp [runtimeSub, arith, Val.kind, Val.num?],
-          by simp [runtimeMul, arith, Val.kind, Val.num?], ?_⟩
-  intro hb
-  simp [runtimeQuo, arith, Val.kind, Val.num?, hb]
+  have hc := hasCase_rep (.N a) (.N b) a b (Rep.N a) (Rep.N b)
+  refine ⟨by simp [runtimeAdd, convertRaw], ?_, ?_, ?_⟩
+  · simp [runtimeSub, arith_rep _ _ _ _ _ a b hc.1 (Rep.N a) (Rep.N b)]
+  · simp [runtimeMul, arith_rep _ _ _ _ _ a b hc.2.1 (Rep.N a) (Rep.N b)]
+  · intro hb
+    simp [runtimeQuo, arith_rep _ _ _ _ _ a b hc.2.2.1 (Rep.N a) (Rep.N b), hb]
 
+open Pug.Props.C01S in
 /-- raw integer literals mix with numbers: `x + 1`, `2 * x` -/
 theorem C01_arith_literal (h : Heap) (a : Rat) (n : Int) :
     runtimeAdd h (.N a) (.int n) = some (.N (a + n)) ∧ runtimeAdd h (.int n) (.N a) = some (.N (n + a)) ∧
     runtimeSub (.N a) (.int n) = some (.N (a - n)) ∧ runtimeMul (.int n) (.N a) = some (.N (n * a)) := by
-  refine ⟨by simp [runtimeAdd, convertRaw], by simp [runtimeAdd, convertRaw],
-          by simp [runtimeSub, arith, Val.kind, Val.num?], by simp [runtimeMul, arith, Val.kind, Val.num?]⟩
+  have h1 := hasCase_rep (.N a) (.int n) a n (Rep.N a) (Rep.int n)
+  have h2 := hasCase_rep (.int n) (.N a) n a (Rep.int n) (Rep.N a)
+  refine ⟨by simp [runtimeAdd, convertRaw], by simp [runtimeAdd, convertRaw], ?_, ?_⟩
+  · simp [runtimeSub, arith_rep _ _ _ _ _ a n h1.1 (Rep.N a) (Rep.int n)]
+  · simp [runtimeMul, arith_rep _ _ _ _ _ n a h2.2.1 (Rep.int n) (Rep.N a)]
 
-/-- **C01 (remainder)** on integer-valued numbers has the sign of the dividend, as in JavaScript -/
+open Pug.Props.C01S in
+/-- **C01 (remainder)** on integer-valued numbers has the sign of the dividend, as in JavaScript - also with an integer
+literal on either side -/
 theorem C01_rem (a b : Int) (hb : b ≠ 0) :
-    runtimeRem (.N a) (.N b) = some (.N ((a.tmod b : Int) : Rat)) ∧ JS.jsRem a b = some ((a.tmod b : Int) : Rat) := by
-  have h1 : Fn.ratTrunc (a : Rat) = a := by
-    unfold Fn.ratTrunc; split <;> simp [Rat.floor_intCast, Rat.ceil_intCast]
-  have h2 : Fn.ratTrunc (b : Rat) = b := by
-    unfold Fn.ratTrunc; split <;> simp [Rat.floor_intCast, Rat.ceil_intCast]
-  constructor
-  · simp [runtimeRem, Val.kind, Val.num?, h1, h2, hb, goRem]
+    runtimeRem (.N a) (.N b) = some (.N ((a.tmod b : Int) : Rat)) ∧
+    runtimeRem (.int a) (.N b) = some (.N ((a.tmod b : Int) : Rat)) ∧
+    JS.jsRem a b = some ((a.tmod b : Int) : Rat) := by
+  refine ⟨?_, ?_, ?_⟩
+  · rw [rem_rep (.N a) (.N b) a b (Rep.N _) (Rep.N _)]
+    simp [ratTrunc_int, hb, goRem]
+  · rw [rem_rep (.int a) (.N b) a b (Rep.int _) (Rep.N _)]
+    simp [ratTrunc_int, hb, goRem]
   · simp [JS.jsRem, hb]
-
-theorem objStr_S (h : Heap) (s : String) : objStr h (strFuel h) (.S s) = some s := by
-  simp [strFuel, objStr]
 
 /-- **C01 (string concatenation)**: `+` on two strings concatenates -/
 theorem C01_concat (h : Heap) (a b : String) : runtimeAdd h (.S a) (.S b) = some (.S (a ++ b)) := by
-  simp [runtimeAdd, convertRaw, objStr_S]
+  simp [runtimeAdd, convertRaw, Pug.Props.C01S.objStr_S']
 
 /-- **C01 (same-type comparison, numbers)**: `<` and `==` on numbers are the rational order and equality; with
 `C01_closures` this gives `> >= <= != !==`. -/
